@@ -199,10 +199,27 @@ func (x *Exec) initObj(class string, ref *T) (*T, bool) {
 func (x *Exec) loadComp(st *State, class string, s *term.Sort, ref, idx *T) *T {
 	class = canon(class)
 	if ref.Op == term.OIte {
-		a := x.loadComp(st, class, s, ref.Args[1], idx)
-		b := x.loadComp(st, class, s, ref.Args[2], idx)
-		return term.Ite(ref.Args[0], a, b)
+		return x.loadCompIte(st, class, s, ref, idx, map[*T]*T{})
 	}
+	return x.loadComp1(st, class, s, ref, idx)
+}
+
+// loadCompIte distributes a load over a conditional reference (memoised: merged pointers are DAGs).
+func (x *Exec) loadCompIte(st *State, class string, s *term.Sort, ref, idx *T, memo map[*T]*T) *T {
+	if ref.Op != term.OIte {
+		return x.loadComp1(st, class, s, ref, idx)
+	}
+	if r, ok := memo[ref]; ok {
+		return r
+	}
+	a := x.loadCompIte(st, class, s, ref.Args[1], idx, memo)
+	b := x.loadCompIte(st, class, s, ref.Args[2], idx, memo)
+	r := term.Ite(ref.Args[0], a, b)
+	memo[ref] = r
+	return r
+}
+
+func (x *Exec) loadComp1(st *State, class string, s *term.Sort, ref, idx *T) *T {
 	if !x.building {
 		if v, ok := x.initObj(class, ref); ok && !st.dirtyInit(class) {
 			if idx != nil {
